@@ -8931,6 +8931,10 @@ class SVG(Group):
         viewbox = values.get(SVG_ATTR_VIEWBOX)
         par = values.get(SVG_ATTR_PRESERVEASPECTRATIO)
         self.viewbox = Viewbox(viewbox, par) if viewbox is not None else None
+        if self.viewbox is not None and (
+            self.viewbox.width is None or self.viewbox.height is None
+        ):
+            self.viewbox = None  # An incomplete viewBox is in error and is ignored.
 
     def get_element_by_id(self, id):
         return self.objects.get(id)
